@@ -15,6 +15,7 @@ import (
 	"time"
 
 	"github.com/f1bonacc1/process-compose/src/api"
+	"github.com/f1bonacc1/process-compose/src/vrt"
 	"github.com/gorilla/websocket"
 )
 
@@ -46,20 +47,25 @@ func (l *oneConnListener) Close() error {
 func (l *oneConnListener) Addr() net.Addr { return &net.TCPAddr{IP: net.IPv4(127, 0, 0, 1), Port: 80} }
 
 type c18wsFollower struct {
-	mode string // all | stall | disconnect
-	got  []string
-	err  string
+	mode         string // all | stall | disconnect
+	got          []string
+	err          string
+	lastA, lastB bool
 }
 
 func c18wsScenarios(tier string) []*Scenario {
 	var scs []*Scenario
 	lines := 300
-	for _, mode := range []string{"all", "history", "stall", "disconnect"} {
+	for _, mode := range []string{"all", "two", "history", "stall", "disconnect"} {
 		for _, after := range []int{0, 3} {
-			if (mode == "all" || mode == "history") && after != 0 {
+			if (mode == "all" || mode == "history" || mode == "two") && after != 0 {
 				continue
 			}
 			mode, after := mode, after
+			lines := lines
+			if mode == "two" {
+				lines = 12 // explored with one deviation: keep the executions short
+			}
 			var sb strings.Builder
 			for i := 0; i < lines; i++ {
 				fmt.Fprintf(&sb, "w%d\n", i)
@@ -73,7 +79,20 @@ func c18wsScenarios(tier string) []*Scenario {
 				K: 0, EnvCost: 1, Idle: 30 * time.Second,
 			}
 			launched := func(w *World) bool { return len(w.procs) > 0 }
+			names := "a"
+			if mode == "two" {
+				// one stream following two processes that both write: their lines share the connection
+				names = "a,b"
+				sc.YAML = projectYAML([]string{"log_length: 1000"}, PC{Name: "a"}, PC{Name: "b"})
+				sc.Procs["b"] = &ProcScript{Launches: [][]Action{{Out("bfirst\n"), Out(strings.ReplaceAll(sb.String(), "w", "v")), Exit(0)}},
+					Hold: func(w *World, pc int) bool { return pc >= 1 && !subscribed(w) }}
+				launched = func(w *World) bool { return len(w.procs) > 1 }
+				sc.K = 1
+			}
 			offset := 5
+			if mode == "two" {
+				offset = 1000 // whatever was written before the subscription took effect comes as history
+			}
 			if mode == "history" {
 				// the follower arrives when the log already holds more lines than the handler's channel has
 				// slots and asks for all of them (the bundled client asks for its log length, 1000 by default)
@@ -89,7 +108,7 @@ func c18wsScenarios(tier string) []*Scenario {
 				ln := &oneConnListener{conn: srvConn, done: make(chan struct{})}
 				srv := &http.Server{Handler: engine}
 				go srv.Serve(ln)
-				u, _ := url.Parse(fmt.Sprintf("ws://pc/process/logs/ws?name=a&offset=%d&follow=true", offset))
+				u, _ := url.Parse(fmt.Sprintf("ws://pc/process/logs/ws?name=%s&offset=%d&follow=true", names, offset))
 				ws, _, err := websocket.NewClient(cliConn, u, nil, 1024, 1024)
 				if err != nil {
 					f.err = err.Error()
@@ -100,8 +119,13 @@ func c18wsScenarios(tier string) []*Scenario {
 				w.mu.Unlock()
 				n := 0
 				for {
-					if mode != "all" && mode != "history" && n >= after {
+					if mode != "all" && mode != "history" && mode != "two" && n >= after {
 						break
+					}
+					if mode == "two" {
+						// a viewer that takes its time: reading a message is a step of its own, so a writer can be
+						// in the middle of a frame when the other process has a line to send
+						vrt.Yield("ws-read")
 					}
 					var m api.LogMessage
 					if err := ws.ReadJSON(&m); err != nil {
@@ -111,6 +135,12 @@ func c18wsScenarios(tier string) []*Scenario {
 					f.got = append(f.got, m.Message)
 					n++
 					if m.Message == fmt.Sprintf("w%d", lines-1) {
+						f.lastA = true
+					}
+					if m.Message == fmt.Sprintf("v%d", lines-1) {
+						f.lastB = true
+					}
+					if f.lastA && (mode != "two" || f.lastB) {
 						break
 					}
 				}
@@ -130,6 +160,19 @@ func c18wsScenarios(tier string) []*Scenario {
 				complete := len(log) >= lines+1
 				if w.Outcome != "completed" || !complete {
 					vs = append(vs, viol("C18", "follower-blocks:writer:"+mode, "with a websocket follower that %ss (after %d messages) the followed process did not finish writing its log: outcome %s, %d of %d lines in the log, blocked %v", mode, after, w.Outcome, len(log), lines+1, w.Blocked))
+				}
+				if f, ok := w.Extra["ws"].(*c18wsFollower); ok && mode == "two" {
+					na, nb := 0, 0
+					for _, l := range f.got {
+						if strings.HasPrefix(l, "w") {
+							na++
+						} else if strings.HasPrefix(l, "v") {
+							nb++
+						}
+					}
+					if na < lines || nb < lines || f.err != "" {
+						vs = append(vs, viol("C18", "two-processes:ws-incomplete", "a follower of two processes on one websocket received %d of %d lines of a and %d of %d of b (err %q, outcome %s)", na, lines, nb, lines, f.err, w.Outcome))
+					}
 				}
 				if f, ok := w.Extra["ws"].(*c18wsFollower); ok && mode == "history" {
 					if len(f.got) < lines+1 {
